@@ -2,7 +2,7 @@
    Statements only; proofs are in Proofs/CountMinProofs.v.  The bucket function is
    ARBITRARY (any function into [0, nb)), so the theorems hold for the crate's
    MurmurHash-derived buckets in particular (tied by the correspondence check and C16). *)
-From DS Require Import Base.Prelude Model.CountMin Proofs.CountMinProofs.
+From DS Require Import Base.Prelude Model.CountMin Proofs.CountMinProofs Proofs.CountMinCodec Proofs.CountMinApi.
 Open Scope N_scope.
 
 (* Any update stream whose total weight fits the counter type: no panic, total_weight is
@@ -45,9 +45,33 @@ Theorem c08_halve_decay_one_sided :
               cm_estimate s (bk_of nh bucket x) <= cm_total s.
 Proof. exact mixed_one_sided. Qed.
 
+(* merges INTERLEAVED with halve / decay (any merge tree whose operands were themselves halved or decayed,
+   round trips included): for every item, its correspondingly scaled true weight [ptruth p x] (the same
+   operations applied to the item's own weight) <= estimate <= total weight.  [pweight p] is the sum of ALL
+   weights ever fed into the program (merged partners included): the hypothesis pweight p <= T::MAX is
+   stronger than "the final total fits" when halve / decay shrank the total in between. *)
+Theorem c08_programs_one_sided :
+  forall nh nb mx sh, 1 <= nh < 256 -> 3 <= nb < 4294967296 -> nh * nb < zN Gen.GenCountMin.MAX_TABLE_ENTRIES ->
+  0 < sh < 65536 -> mx < M64 ->
+  forall bucket : N -> N -> N, (forall x r, bucket x r < nb) ->
+  forall p s x, pok nh nb mx sh p -> pweight mx sh p <= mx -> eval nh nb mx sh bucket p = Ok s ->
+  ptruth p x <= cm_estimate s (bk_of nh bucket x) /\ cm_estimate s (bk_of nh bucket x) <= cm_total s.
+Proof. exact api_one_sided. Qed.
+
+(* the crate's (repaired) decay is c -> min(f c, c) with f c = trunc(c as f64 * d): an admissible scaling
+   (monotone, 0 -> 0, never growing) as soon as the float part f is monotone; the clamp gives the other two
+   for ANY f.  Monotonicity of f (IEEE round-to-nearest is monotone) is an assumption, checked on every run
+   by the oracle on all counter values it sees (Corr/CountMin.v, layout_from op 6). *)
+Theorem c08_decay_is_admissible_scaling :
+  forall f : N -> N, (forall a b, a <= b -> f a <= f b) -> sop_ok (SScale (decay_clamp f)).
+Proof. exact decay_clamp_ok. Qed.
+
+Theorem c08_decay_never_grows : forall (f : N -> N) c, decay_clamp f c <= c.
+Proof. exact decay_clamp_le. Qed.
+
 (* the constructor in its documented range yields the fresh sketch the theorems start from *)
 Theorem c08_new_in_range :
-  forall nh nb mx sh, nh <> 0 -> 3 <= nb -> nh * nb < zN Gen.GenCountMin.MAX_TABLE_ENTRIES ->
+  forall nh nb mx sh, nh <> 0 -> 3 <= nb -> nh * nb < zN Gen.GenCountMin.MAX_TABLE_ENTRIES -> sh <> 0 ->
   cm_new nh nb mx sh = Ok (cm_fresh nh nb mx sh).
 Proof. exact cm_new_fresh. Qed.
 
@@ -57,3 +81,12 @@ Example c08_example :
   exists s, run_updates 2 bucket (cm_fresh 2 3 255 7) [(1, 5); (4, 2); (2, 1)] = Ok s /\
             cm_estimate s (bk_of 2 bucket 1) = 7 /\ cm_total s = 8.
 Proof. eexists. split; [vm_compute; reflexivity|]. split; reflexivity. Qed.
+
+(* non-vacuity of the program theorem: a merge whose left operand was halved and whose right operand was
+   decayed by c -> min(c * 3 / 4, c); item 1 was fed 10 (-> 5) on the left and 8 (-> 6) on the right *)
+Example c08_program_example :
+  let bucket := fun x r => (x + r) mod 3 in
+  let p := PMerge (PHalve (PUpd (PUpd PNew 1 10) 4 3)) (PScale (decay_clamp (fun c => c * 3 / 4)) (PUpd PNew 1 8)) in
+  ptruth p 1 = 11 /\
+  exists s, eval 2 3 255 7 bucket p = Ok s /\ cm_estimate s (bk_of 2 bucket 1) = 12 /\ cm_total s = 12.
+Proof. split; [reflexivity|]. eexists. split; [vm_compute; reflexivity|]. split; reflexivity. Qed.
